@@ -526,3 +526,24 @@ package server
 //@   ensures case pwdsKept:    forall(name string, forall(p string, old(has(u.users, name) && mem(u.users[name], p)) && !old(cleared(u, namespace, name, p)) ==> has(u.users, name) && mem(u.users[name], p)))
 //@   ensures case pwdsOld:     forall(name string, forall(p string, has(u.users, name) && mem(u.users[name], p) ==> old(has(u.users, name) && mem(u.users[name], p))))
 //@   ensures case pwdsRemoved: forall(key string, old(has(u.userNamespaces, key)) && old(u.userNamespaces[key]) == namespace ==> !(has(u.users, userOf(key)) && mem(u.users[userOf(key)], passOf(key))))
+
+// ---------------------------------------------------------------- C14 parameter markers of a prepared statement
+// Spec lexer (written from MySQL's lexical rules, not from the code): qs(s, i) is the lexer state after i bytes --
+// 0 statement text, 1 inside '...', 2 inside "...", 3 inside `...`, 4 inside a # comment (to end of line), 11 / 12 right after a
+// backslash inside '...' / "..."; a doubled quote inside a literal closes and reopens it. np(s, i) counts the '?' met in state 0:
+// the grammar's parameter markers. (-- and /* */ comments need two-byte look-ahead and are left out of this spec.)
+//@ pure nextState(q int, c byte) int = ite(q == 0, ite(c == 39, 1, ite(c == 34, 2, ite(c == 96, 3, ite(c == 35, 4, 0)))), ite(q == 1, ite(c == 92, 11, ite(c == 39, 0, 1)), ite(q == 2, ite(c == 92, 12, ite(c == 34, 0, 2)), ite(q == 3, ite(c == 96, 0, 3), ite(q == 4, ite(c == 10, 0, 4), ite(q == 11, 1, ite(q == 12, 2, q)))))))
+//@ pure qs(s string, i int) int
+//@ pure np(s string, i int) int
+//@ axiom lexStart for CalcParams: forall(s string, qs(s, 0) == 0 && np(s, 0) == 0)
+//@ axiom lexStep for CalcParams: forall(s string, forall(i int, 1 <= i && i <= slen(s) ==> qs(s, i) == nextState(qs(s, i - 1), sat(s, i - 1)) && np(s, i) == np(s, i - 1) + ite(qs(s, i - 1) == 0 && sat(s, i - 1) == 63, 1, 0)))
+//@ property C14: CalcParams
+//@ func CalcParams
+//@   requires slen(sql) < 1<<30
+//@   loop 0 invariant case state:   (quoteChar == "" || quoteChar == runestr(39) || quoteChar == runestr(34)) && (quoteChar == "" <==> qs(sql, rangeindex + 1) == 0) && (quoteChar == runestr(39) <==> qs(sql, rangeindex + 1) == 1) && (quoteChar == runestr(34) <==> qs(sql, rangeindex + 1) == 2)
+//@   loop 0 invariant case count:   count == np(sql, rangeindex + 1) && len(offsets) == count && (offsets == nil || fresh(offsets))
+//@   loop 0 invariant case offsets: forall(k, 0, len(offsets), 0 <= offsets[k] && offsets[k] <= rangeindex && sat(sql, offsets[k]) == 63 && qs(sql, offsets[k]) == 0 && np(sql, offsets[k]) == k)
+//@   loop 0 invariant case items:   0 <= subBeginIndex && subBeginIndex <= rangeindex + 1 && (sqlItems == nil || fresh(sqlItems))
+//@   ensures case count:    err == nil ==> count == np(sql, slen(sql)) && len(offsets) == count && qs(sql, slen(sql)) == 0
+//@   ensures case offsets:  err == nil ==> forall(k, 0, len(offsets), 0 <= offsets[k] && offsets[k] < slen(sql) && sat(sql, offsets[k]) == 63 && qs(sql, offsets[k]) == 0 && np(sql, offsets[k]) == k)
+//@   ensures case rejected: err != nil ==> qs(sql, slen(sql)) != 0
